@@ -129,20 +129,48 @@ func VerifSegmentCut() {
 	sg := &SegmentGenerator{playlist: pl, path: "/live/a", hlsFragment: 5, memory: true, sequenceNo: 0, audioRate: 44100, aacJitter: newHlsAacJitter()}
 	// current segment: opened earlier, with a recording file
 	curFile := &verifFile{}
-	startPts := symapi.Int64("startPts")
-	seqNo := symapi.Int("seqNo")
+	// CONC=1: the three time stamps are drawn from concrete classes around the thresholds
+	// (100 ms, hlsFragment, 2 x hlsFragment), so that the float64 duration arithmetic is
+	// evaluated exactly and a counterexample replays natively; CONC=0: symbolic time stamps,
+	// durations as uninterpreted float terms (relational reasoning only).
+	conc := symapi.Param("CONC", 0) == 1
+	var startPts, concLast, concPts int64
+	if conc {
+		startPts = []int64{0, 270000}[symapi.Choose("startClass", 2)]
+		durMs := []int64{0, 50, 99, 100, 101, 4999, 5000, 5001, 9999, 10000, 10001}[symapi.Choose("durClass", 11)]
+		concLast = startPts + durMs*90
+		concPts = concLast + []int64{0, 3600}[symapi.Choose("stepClass", 2)]
+	} else {
+		startPts = symapi.Int64("startPts")
+	}
+	var seqNo int
+	if conc {
+		seqNo = []int{1, 7, 65535}[symapi.Choose("seqClass", 3)]
+	} else {
+		seqNo = symapi.Int("seqNo")
+	}
 	symapi.Assume(seqNo >= 1 && seqNo < 1<<30 && startPts >= 0 && startPts < 1<<40)
 	sg.sequenceNo = seqNo
 	sg.current = &segment{sequenceNo: seqNo, segmentStartPts: startPts, file: curFile, uri: "cur"}
-	lastPts := symapi.Int64("lastPts")
-	symapi.Assume(lastPts >= startPts && lastPts < 1<<41)
+	var lastPts int64
+	if conc {
+		lastPts = concLast
+	} else {
+		lastPts = symapi.Int64("lastPts")
+		symapi.Assume(lastPts >= startPts && lastPts < 1<<41)
+	}
 	sg.current.updateDuration(lastPts)
 	durBefore := sg.current.duration
 	// the incoming frame
 	video := symapi.Bool("video")
 	key := symapi.Bool("key")
-	pts := symapi.Int64("pts")
-	symapi.Assume(pts >= lastPts && pts < 1<<42)
+	var pts int64
+	if conc {
+		pts = concPts
+	} else {
+		pts = symapi.Int64("pts")
+		symapi.Assume(pts >= lastPts && pts < 1<<42)
+	}
 	fr := &mpegts.Frame{Pid: 256, StreamID: 0xe0, Pts: pts, Dts: pts, Payload: symapi.Bytes("pay", 2)}
 	if !video {
 		fr.Pid, fr.StreamID = 257, 0xc0
